@@ -111,10 +111,10 @@ PROPS['C01'] = dict(
     assumptions=['T3: a status Optimal comes with a valuation satisfying the program (also for a time-limit stop with an incumbent)',
                  'the model at solve time is the one the reader built (derived lists as set_project_lists / set_lecturer_lists left them; the verified frames of pulp_setup / solve / run touch only variables and result fields); the reader itself is C10',
                  'a student does not list one project twice (two pairs with equal numbers would share one variable name)',
-                 'the stability_correct line (-stab) of get_results is outside this contract (C06)'])
+                 ])
 PROPS['C02'] = dict(
     title='Solver reports Optimal exactly when a feasible matching exists; never errors',
-    functions=[LP + 'run', LP + 'run_optimisations', MOD + 'pulp_setup', 'solver:Solver.solve'] + CRIT_FUNCS,
+    functions=[LP + 'run', LP + 'run_optimisations', MOD + 'pulp_setup', 'solver:Solver.solve', LP + 'upper_lower_constraints', LP + 'stability_constraints'] + CRIT_FUNCS,
     lemmas=['SUM/ext', 'SUM/le', 'SUM/const', 'C02/size-bound'], level='other',
     level_text=EXACT + 'run: never raises, solves at least once, returns the status of the last solve, only the last solve may have failed; every criterion creates a variable with a fresh literal name (duplicate names raise in PuLP); Solver.solve never raises in either mode and hands LP_Solver.run a fresh problem with all variables the requested options need (Model.pulp_setup).  NOT proved deductively (bounded stand-in): that the upper bound given to each objective variable admits the witness value of every feasible matching (witness-in-bounds), i.e. that criteria never turn a feasible instance infeasible',
     harness=True, bound='<= 5 students x <= 3 projects x <= 3 lecturers incl. objective-bound stress instances, 0-3 random criteria, real CBC',
@@ -122,8 +122,8 @@ PROPS['C02'] = dict(
     assumptions=['witness-in-bounds of the objective variables: bounded stand-in only', 'FLAT/sum assumed (T11)'])
 PROPS['C03'] = dict(
     title='Each optimisation criterion optimises the quantity it is documented to optimise',
-    functions=CRIT_FUNCS, lemmas=['SUM/ext'], level='other',
-    level_text=EXACT + 'per criterion: LINK (objective variable == the documented measure written as sums over the code\'s own lists, with the documented defaults for cut-off and multipliers), FRESH name, FREEZE (perform_optimisation: objective = +-variable, one solve, then variable >= / <= the achieved value), generous / greedy visit exactly ranks R..cut / 1..min(cut,R).  The step from LINK+FREEZE to "the reported matching attains the optimum" uses T3 (CBC returns an optimum) and the set-level meta-lemma freeze_opt, which is argued in DESIGN.md section 6 but not machine-checked here',
+    functions=CRIT_FUNCS + [LP + 'run', LP + 'run_optimisations'], lemmas=['SUM/ext'], level='other',
+    level_text=EXACT + 'per criterion: LINK (objective variable == the documented measure written as sums over the code\'s own lists, with the documented defaults for cut-off and multipliers), FRESH name, FREEZE (perform_optimisation: objective = +-variable, one solve, then variable >= / <= the achieved value), generous / greedy visit exactly ranks R..cut / 1..min(cut,R); LP_Solver.run adds the load-balancing constraints (deviation variable >= |load - target|) whenever one of lmb / lsb / mincostlsb is requested and dispatches every requested criterion to its function.  The step from LINK+FREEZE to "the reported matching attains the optimum" uses T3 (CBC returns an optimum) and the set-level meta-lemma freeze_opt, which is argued in DESIGN.md section 6 but not machine-checked here',
     harness=True, bound='<= 4 students x <= 3 projects x <= 3 lecturers, one random criterion with random extras, real CBC',
     budget={'quick': 25, 'thorough': 300}, trusted=T_LP,
     assumptions=['freeze_opt meta-lemma (set-level) not machine-checked', 'FLAT/sum assumed (T11)', 'measures are stated over project_lists / lecturer_lists / rank_lists (ModelWF agreement: bounded)'])
@@ -147,11 +147,11 @@ PROPS['C14'] = dict(
     functions=[LP + 'perform_optimisation', LP + 'optimisation_generous', LP + 'optimisation_greedy', LP + 'run_optimisations', LP + 'run', 'solver:Solver.solve', MOD + 'get_results',
                'solver:Solver.get_results_short', 'solver:Solver.get_results_long', MOD + '_get_pair_assignments'],
     lemmas=['SUM/ext'], level='other',
-    level_text='the outcome of every prob.solve is arbitrary (any status code, any reported values; ghost history hist): proved for every number and kind of fault and every criteria sequence: after a solve whose status is not Optimal no further solve happens (generous / greedy per-rank loops, run_optimisations), run returns the status of the last = first failing solve, and Model.get_results shows a matching or statistics only when the stored status is Optimal and no timeout applies, the Timeout line exactly when a limit is set and the status is Not Solved or the elapsed time exceeds the limit, otherwise the stored status; Solver.solve stores exactly the status returned by run (= the status of the last solve) and the time limit in the model, and the Solver-level getters hand the model\'s text through with these guarantees.  NOT proved deductively (bounded stand-in): the clock axiom T4 for time-limit stops with an incumbent, and the getters when -stab adds the stability_correct line',
+    level_text='the outcome of every prob.solve is arbitrary (any status code, any reported values; ghost history hist): proved for every number and kind of fault and every criteria sequence: after a solve whose status is not Optimal no further solve happens (generous / greedy per-rank loops, run_optimisations), run returns the status of the last = first failing solve, and Model.get_results shows a matching or statistics only when the stored status is Optimal and no timeout applies, the Timeout line exactly when a limit is set and the status is Not Solved or the elapsed time exceeds the limit, otherwise the stored status; Solver.solve stores exactly the status returned by run (= the status of the last solve) and the time limit in the model, and the Solver-level getters hand the model\'s text through with these guarantees.  NOT proved deductively (bounded stand-in): the clock axiom T4 for time-limit stops with an incumbent',
     harness=True, bound='<= 4 students x <= 3 projects x <= 3 lecturers, 0-3 criteria, fault at solve number 0..4, 4-5 kinds, transient / persistent, pairs of faults',
     budget={'quick': 30, 'thorough': 400},
     trusted=T_LP + ['T4 clock axiom: a time-limit stop consumes at least timeLimit seconds (harness advances a fake clock)', 'T12 datetimes modelled as seconds'],
-    assumptions=['datetime.now() is an arbitrary real (nothing assumed about successive readings); the stability_correct line of the getters is outside the contracts (C06 + bounded runs)'])
+    assumptions=['datetime.now() is an arbitrary real (nothing assumed about successive readings)'])
 PROPS['C11'] = dict(
     title='Printed statistics and listings describe the printed matching',
     functions=[MOD + f for f in ('_get_max_rank', '_get_cost', '_get_cost_sq', '_get_degree', '_get_profile', '_get_lec_abs_diffs', '_get_max_lec_abs_diff',
